@@ -278,6 +278,11 @@ struct CrashSim {
         if (nest_depth > 0) {
             nested_end = simfs::LogSize();
             simfs::Disarm();
+            if (getenv("VERIF_C16_NESTLOG")) {
+                const auto& log = simfs::Log();
+                for (size_t i = nested_base; i < nested_end; ++i)
+                    ctx.evf("nio[%zu] %s ino=%u off=%lu len=%lu %s %s mt=%d", i - nested_base, simfs::KindName(log[i].kind), log[i].ino, (unsigned long)log[i].off, (unsigned long)log[i].len, log[i].path.c_str(), log[i].path2.c_str(), (int)log[i].main_thread);
+            }
         }
         if (getenv("VERIF_TIMING")) fprintf(stderr, "timing: start %.1f ms (k=%zu)\n", std::chrono::duration<double, std::milli>(T2 - T1).count(), k);
         if (!ok && getenv("VERIF_SIMFS_DUMP")) {
@@ -299,8 +304,10 @@ struct CrashSim {
         if (cs.ref->Work(t) < cs.ref->Work(F)) ctx.failf("recovered-tip-behind-last-flush", "%s: tip after recovery #%d (h=%d) has less work than the tip at the last completed full flush #%d (h=%d)", where, t, cs.ref->blocks[t].height, F, cs.ref->blocks[F].height);
         if (R_idx >= 0 && t != R_idx) ctx.probe("rolled_forward_from_stored_blocks");
         if (R_idx >= 0 && F > 0 && cs.ref->Work(R_idx) < cs.ref->Work(F)) ctx.probe("coins_behind_last_flush");
-        ctx.evf("recovered R=#%d tip=#%d F=#%d", R_idx, t, F);
-        ctx.fingerprint(mix64(mix64((uint64_t)R_idx + 7, t), mix64(powerloss + 2 * (lineage_tips != nullptr), cs.ref->blocks.size())));
+        // (which of several equal-work stored tips gets activated after a restart is decided by CBlockIndex pointer order in
+        // CBlockIndexWorkComparator, i.e. by heap layout: the trace records the tip's work, not its identity)
+        ctx.evf("recovered R=#%d tip_work=%d F=#%d", R_idx, cs.ref->Work(t), F);
+        ctx.fingerprint(mix64(mix64((uint64_t)R_idx + 7, cs.ref->Work(t)), mix64(powerloss + 2 * (lineage_tips != nullptr), cs.ref->blocks.size())));
         // (4) bounded liveness after faults stop: re-deliver everything, end in a legal most-work state with the model's UTXO
         if ((int)(mix64(k, n) % 100) < ctx.knob("redeliver_pct", 25)) {
             // temporarily point the chain oracle at the recovered node (non-owning: released again in the guard)
@@ -424,13 +431,26 @@ struct CrashSim {
                 bool pruned = WITH_LOCK(cs_main, return cs.node->cm().m_blockman.m_have_pruned);
                 if (pruned) ctx.probe("manual_prune_deleted_files");
                 ctx.evf("prune up to %d (tip %d) have_pruned=%d", target, tip_h, (int)pruned);
-                if (cs.node->Fatal()) ctx.failf("node-fatal-error", "after manual prune");
+                if (cs.node->Fatal()) {
+                    if (!simfs::FaultFired()) ctx.failf("node-fatal-error", "after manual prune");
+                    // the injected I/O error surfaced in the prune's flush: the node stops here (see below)
+                    ctx.fault("io_error_node_stopped");
+                    ctx.evf("node stopped after injected I/O error: manual prune");
+                    io_fault_stopped = true;
+                    break;
+                }
                 continue;
             }
             if (op.kind == OP_IOFAULT) {
                 // storage fault: the n-th next write / sync / fallocate fails with ENOSPC or EIO (armed once per run)
                 static const simfs::FaultKind kinds[] = {simfs::FaultKind::ENOSPC_WRITE, simfs::FaultKind::EIO_WRITE, simfs::FaultKind::EIO_SYNC, simfs::FaultKind::ENOSPC_FALLOC};
-                if (!simfs::FaultFired()) simfs::SetFault(kinds[op.mod(0, 4)], (uint64_t)op.mod(1, 400));
+                if (!simfs::FaultFired()) {
+                    simfs::SetFault(kinds[op.mod(0, 4)], (uint64_t)op.mod(1, 400));
+                    // A write that stdio issues from inside fwrite() of a block/undo record fails inside ~BufferedWriter, where the
+                    // node's reaction is std::terminate (DESIGN 11.4): loud, but this in-process harness cannot continue from it,
+                    // so those writes are passed over; the part of the record written at fclose and every other write can still fail.
+                    simfs::SetFwriteFaultExempt(".dat");
+                }
                 continue;
             }
             last_tip = std::max(0, cs.TipIdx());
@@ -440,7 +460,8 @@ struct CrashSim {
             } catch (const sim::Violation& v) {
                 // After an injected I/O error the node is expected to stop with a fatal/flush error (or a failed restart);
                 // what it leaves on disk is then judged exactly like a process kill at this point.
-                if (!simfs::FaultFired() || (v.cls != "node-fatal-error" && v.cls != "restart-failed")) throw;
+                // (A clean shutdown whose final flush hit the error comes back at the last state that did reach the disk.)
+                if (!simfs::FaultFired() || (v.cls != "node-fatal-error" && v.cls != "restart-failed" && v.cls != "restart-lost-work")) throw;
                 ctx.fault("io_error_node_stopped");
                 ctx.evf("node stopped after injected I/O error: %s", v.cls.c_str());
                 io_fault_stopped = true;
